@@ -123,12 +123,19 @@ class CGen:
             return parts[0]
         return {"f": "or", "xs": [p[0] for p in parts]}, " or ".join(p[1] for p in parts)
 
-    def rphi(self, depth, scopevars=None):
+    def rphi(self, depth, scopevars=None, style=None):
+        """style: how quantifiers are written - "legacy" (`forall <x> in sel: body`) or "comp", the documented form
+        (`all(body for <x> in *sel)`); one formula uses one style (the comprehension form nests only in itself)"""
         scopevars = scopevars or []
         if depth == 0 or self.rnd.random() < 0.5:
             return self.rdisj(scopevars)
+        style = style or self.rnd.choice(["legacy", "comp"])
         q = self.rnd.choice(["forall", "exists"])
         var = "<v%d>" % depth
         sel = self.rsel(scopevars)
-        body = self.rphi(depth - 1, scopevars + [var])
-        return {"f": q, "var": var, "sel": sel, "body": body[0]}, "%s %s in %s: %s" % (q, var, self.sel_text(sel), body[1])
+        body = self.rphi(depth - 1, scopevars + [var], style)
+        if style == "comp":
+            text = "%s(%s for %s in *%s)" % ("all" if q == "forall" else "any", body[1], var, self.sel_text(sel))
+        else:
+            text = "%s %s in %s: %s" % (q, var, self.sel_text(sel), body[1])
+        return {"f": q, "var": var, "sel": sel, "body": body[0]}, text
